@@ -829,6 +829,65 @@ fn judge_image(out: &mut CaseOut, base: &Base, image: &Image, damaged: &PathBuf,
     Observed { outcome }
 }
 
+fn get_varint(b: &[u8], at: &mut usize) -> Option<u64> {
+    let mut v = 0u64;
+    for shift in (0..64).step_by(7) {
+        let byte = *b.get(*at)?;
+        *at += 1;
+        v |= ((byte & 0x7f) as u64) << shift;
+        if byte & 0x80 == 0 {
+            return Some(v);
+        }
+    }
+    None
+}
+
+fn put_varint(out: &mut Vec<u8>, mut v: u64) {
+    while v >= 0x80 {
+        out.push((v as u8) | 0x80);
+        v >>= 7;
+    }
+    out.push(v as u8);
+}
+
+/// The table with the index handle of its footer redirected to another *intact* block of the same
+/// file: the filter block (whose handle is the value of the metaindex block's one entry) or, with
+/// `to_metaindex`, the metaindex block. The block read through the redirected handle passes its
+/// checksum - it is just not an index.
+fn redirect_index_handle(table: &[u8], to_metaindex: bool) -> Option<Vec<u8>> {
+    let len = table.len();
+    if len < 48 {
+        return None;
+    }
+    let footer = &table[len - 48..];
+    let mut at = 0usize;
+    let (meta_off, meta_size) = (get_varint(footer, &mut at)? as usize, get_varint(footer, &mut at)? as usize);
+    let target = if to_metaindex {
+        (meta_off as u64, meta_size as u64)
+    } else {
+        // first entry of the metaindex block: shared, non_shared, value_len, key, value
+        let block = table.get(meta_off..meta_off + meta_size)?;
+        let mut p = 0usize;
+        let (_shared, non_shared, value_len) = (get_varint(block, &mut p)?, get_varint(block, &mut p)? as usize, get_varint(block, &mut p)? as usize);
+        let value = block.get(p + non_shared..p + non_shared + value_len)?;
+        let mut q = 0usize;
+        (get_varint(value, &mut q)?, get_varint(value, &mut q)?)
+    };
+    let mut new_footer = vec![];
+    put_varint(&mut new_footer, meta_off as u64);
+    put_varint(&mut new_footer, meta_size as u64);
+    put_varint(&mut new_footer, target.0);
+    put_varint(&mut new_footer, target.1);
+    if new_footer.len() > 40 {
+        return None;
+    }
+    new_footer.resize(40, 0);
+    new_footer.extend_from_slice(&footer[40..]);
+    let mut out = table[..len - 48].to_vec();
+    out.extend_from_slice(&new_footer);
+    Some(out)
+}
+
 /// Every footer position of every table of one small base, overlaid with continuation-bit bytes
 /// (for C09: none of the calls made on such an image may panic or hang). Returns (images, images on
 /// which a call panicked).
@@ -845,6 +904,19 @@ pub fn footer_sweep(seed: u64, idx: u64) -> (u64, u64) {
         let len = base.image.files[path].len();
         if len < 48 {
             continue;
+        }
+        for to_metaindex in [false, true] {
+            if let Some(redirected) = redirect_index_handle(&base.image.files[path], to_metaindex) {
+                watch::tick();
+                let mut image = base.image.clone();
+                image.mutate(path, |b| *b = redirected.clone());
+                let ctx = json!({"file": path.display().to_string(), "index_handle_redirected_to": if to_metaindex { "metaindex block" } else { "filter block" }});
+                images += 1;
+                let r = catch_unwind(AssertUnwindSafe(|| judge_image(&mut scratch, &base, &image, path, PathClass::Table, "footer", &ctx, &mut rng)));
+                if r.is_err() {
+                    panicked += 1;
+                }
+            }
         }
         for p in 0..12usize {
             for fill in [0xffu8, 0x80u8] {
@@ -980,6 +1052,16 @@ pub fn run_case(tier: &str, seed: u64, idx: u64) -> CaseOut {
                     b.extend_from_slice(&copy2);
                     b.extend_from_slice(&tail);
                 })));
+            }
+        }
+        // the index handle of the footer redirected to another intact block of the same file (its
+        // filter block, its metaindex block): the checksum of what is read is fine
+        if class == PathClass::Table && (slice == 5 || thorough) {
+            for to_metaindex in [false, true] {
+                if let Some(redirected) = redirect_index_handle(&base.image.files[path], to_metaindex) {
+                    let what = if to_metaindex { "index handle redirected to the metaindex block" } else { "index handle redirected to the filter block" };
+                    mutations.push((len - 48, what.to_string(), Box::new(move |b: &mut Vec<u8>| *b = redirected.clone())));
+                }
             }
         }
         // the footer of a table (two block handles as varints, padding, magic number) is covered by no
